@@ -13,7 +13,7 @@ from .contracts import REGISTRY, LEMMAS
 from .engine import Exec, Unsupported, SpecDrift, solve, Obligation, State
 from .source import Repo, normalized_hash
 
-SPEC_MODULES = ["specs.heap", "specs.graph", "specs.supervised", "specs.semi", "specs.knn", "specs.arcs", "specs.knn_predict", "specs.kselect", "specs.general", "specs.prune", "specs.precomputed"]
+SPEC_MODULES = ["specs.heap", "specs.graph", "specs.supervised", "specs.semi", "specs.knn", "specs.arcs", "specs.knn_predict", "specs.kselect", "specs.general", "specs.prune", "specs.precomputed", "specs.stream", "specs.invariance"]
 
 
 def load_specs():
